@@ -73,3 +73,7 @@ package alpm
 //@ lemma c20-range-equal [C20] uses c20-equal: forall r *VersionRange, v1, v2 *Version :: r != nil && v1 != nil && v2 != nil && wfRange(r) && v1.hasPkgrel == v2.hasPkgrel && (forall i int :: 0 <= i && i < len(r.constraints) ==> r.constraints[i].version != nil && r.constraints[i].version.hasPkgrel == v1.hasPkgrel && (r.constraints[i].operator == "=" || r.constraints[i].operator == "<" || r.constraints[i].operator == "<=" || r.constraints[i].operator == ">" || r.constraints[i].operator == ">=")) && v1.Compare(v2) == 0 ==> ((forall i int :: 0 <= i && i < len(r.constraints) ==> r.constraints[i].matches(v1)) == (forall i int :: 0 <= i && i < len(r.constraints) ==> r.constraints[i].matches(v2)))
 // ... and the set a range without != accepts is convex in the order
 //@ lemma c20-range-convex [C20] uses c20-convex: forall r *VersionRange, a, b, d *Version :: r != nil && a != nil && b != nil && d != nil && wfRange(r) && a.hasPkgrel == b.hasPkgrel && b.hasPkgrel == d.hasPkgrel && (forall i int :: 0 <= i && i < len(r.constraints) ==> r.constraints[i].version != nil && r.constraints[i].version.hasPkgrel == a.hasPkgrel && (r.constraints[i].operator == "=" || r.constraints[i].operator == "<" || r.constraints[i].operator == "<=" || r.constraints[i].operator == ">" || r.constraints[i].operator == ">=")) && a.Compare(b) <= 0 && b.Compare(d) <= 0 && (forall i int :: 0 <= i && i < len(r.constraints) ==> r.constraints[i].matches(a)) && (forall i int :: 0 <= i && i < len(r.constraints) ==> r.constraints[i].matches(d)) ==> (forall i int :: 0 <= i && i < len(r.constraints) ==> r.constraints[i].matches(b))
+
+// ---- the registered name (the VERS evaluator and the CLI select behaviour by it)
+//@ func (*Ecosystem).Name
+//@   ensures result == "alpm"   [C04 C15 C17]
